@@ -87,11 +87,8 @@ Theorem C20_representations_agree : forall q0w q0x q0y q0z q1w q1x q1y q1z q2w q
 Proof. intros. split; [apply repr_spec; assumption|]. repeat split; apply Rspec_SO3; assumption. Qed.
 Print Assumptions C20_representations_agree.
 
-(* the hypotheses are inhabited by a non-stationary trajectory: identity, quarter turn about x, half turn about x;
-   its ground-truth rate between the first two rows is (2/dt) sin(pi/4) about x *)
-Example C20_nonvacuous : unit4 1 0 0 0 /\ unit4 (sqrt 2 / 2) (sqrt 2 / 2) 0 0 /\ unit4 0 1 0 0 /\
-  rate dt100 [1;0;0;0] [sqrt 2 / 2; sqrt 2 / 2; 0; 0] = [100 * sqrt 2; 0; 0].
-Proof.
-  assert (H2 : sqrt 2 * sqrt 2 = 2) by (apply sqrt_sqrt; lra).
-  unfold unit4. repeat split; try lra; [field_simplify; rewrite ?H2; try lra; nra | unfold_c20; list_eq; field].
-Qed.
+(* the hypotheses are inhabited by a non-stationary trajectory: identity, then (3/5, 4/5, 0, 0), then a half turn about x;
+   its ground-truth rate between the first two rows is (2/dt) * 4/5 about x *)
+Example C20_nonvacuous : unit4 1 0 0 0 /\ unit4 (3/5) (4/5) 0 0 /\ unit4 0 1 0 0 /\
+  rate dt100 [1;0;0;0] [3/5; 4/5; 0; 0] = [160; 0; 0] /\ body [3/5; 4/5; 0; 0] [0;0;1] = [0; 24/25; -7/25].
+Proof. unfold unit4. repeat split; try lra; unfold_c20; list_eq; lra. Qed.
